@@ -56,6 +56,8 @@ HAND = [
 
 # ------------------------------------------------------------------------------------------ small helpers
 def strip_docs(code):
+    """without doc comments: `///` lines and the `/** .. */` blocks prettyplease writes for a multi-line doc string"""
+    code = re.sub(r"/\*\*.*?\*/", "", code, flags=re.S)
     return "\n".join(l for l in code.split("\n") if not l.lstrip().startswith("///"))
 
 _STR = re.compile(r'"(?:[^"\\]|\\.)*"')
@@ -265,11 +267,12 @@ def documents(ctx):
         if thorough or b in small: docs.append(("fixture:" + b, doc))
     import corpus
     for cid, cdoc, _ in corpus.documents():
-        if cid.startswith(("hand:", "file:")): docs.append(("corpus:" + cid, cdoc))
+        if cid.startswith("file:"): docs.append(("corpus:" + cid, cdoc))
     n = 400 if thorough else 30
     for k in range(n):
-        fs = ["default", "defaults", "allof", "recursive", "formats"][k % 5]
-        feats = set(gen.FEATURE_SETS[fs]) | ({"titles"} if k % 3 == 0 else set()) | ({"any"} if k % 4 == 0 else set())
+        fs = ["default", "defaults", "allof", "recursive", "formats", "allof"][k % 6]
+        feats = set(gen.FEATURE_SETS[fs]) | ({"titles"} if k % 3 == 0 else set()) | ({"any"} if k % 4 == 0 else set()) | \
+                ({"map_keys", "const"} if k % 6 == 5 else set())
         docs.append(("gen:%d" % k, gen.gen_universe(ctx.rng, 3 + k % 7, feats)))
     return docs
 
